@@ -1497,6 +1497,36 @@ pub fn c18(ix: &Index) -> Vec<Viol> {
             }
         }
     }
+    // ... and at the point of the span's life at which add_event was called: the offset from the
+    // span's begin (both stamps are converted with the same anchor, they travel in one span set)
+    // lies between (call began - span certainly started) and (call returned - span start began)
+    for a in &h.atts {
+        let (AKind::Event { name, .. }, ARef::Local(l), Route::Local) = (&a.kind, a.target, a.route) else { continue };
+        if a.b1 == 0 || h.locals[l].br.c1 == 0 {
+            continue;
+        }
+        let same_name = h.atts.iter().filter(|b| matches!((&b.kind, b.target), (AKind::Event { name: n2, .. }, ARef::Local(l2)) if n2 == name && l2 == l)).count();
+        if same_name != 1 {
+            continue;
+        }
+        let Some(rs) = ix.by_name.get(h.locals[l].name.as_str()) else { continue };
+        let lo = a.b0.saturating_sub(h.locals[l].br.c1);
+        let hi = a.b1.saturating_sub(h.locals[l].br.c0);
+        for (_, r) in rs {
+            let evs: Vec<_> = r.events.iter().filter(|e| e.name.as_ref() == name).collect();
+            if evs.len() != 1 {
+                continue;
+            }
+            let off = evs[0].timestamp_unix_ns.saturating_sub(r.begin_time_unix_ns);
+            if off + EPS < lo || off > hi + EPS {
+                out.push(v(
+                    "C18",
+                    "event-time-not-at-add",
+                    format!("event {:?} is stamped {} ns after the begin of local span {:?}, but add_event was called between {} and {} ns after it", name, off, r.name, lo, hi),
+                ));
+            }
+        }
+    }
     // events through the handle: inside the run window
     for a in &h.atts {
         let AKind::Event { name, .. } = &a.kind else { continue };
@@ -1547,6 +1577,18 @@ pub fn c07(h: &Hist) -> Vec<Viol> {
             format!("panic:{}:{}", p.op, kind),
             format!("vt{}: {} panicked: {}", p.vt, p.op, p.msg),
         ));
+    }
+    // flush() apart, no tracing call waits for a collector cycle: the collector's work (draining
+    // the queues, calling the reporter) never runs on a thread of the host program
+    for (vt, t, what) in &h.host_cycles {
+        let during_flush = h.flushes.iter().any(|f| f.vt == *vt && f.t0 <= *t && f.t1.map_or(true, |t1| *t <= t1));
+        if !during_flush {
+            out.push(v(
+                "C07",
+                "collector-cycle-on-host-thread",
+                format!("vt{}: {} ran on the program thread at t={} inside a tracing call other than flush(): the call waits for a whole collector cycle and for the user's reporter", vt, what, t),
+            ));
+        }
     }
     out
 }
@@ -2072,6 +2114,34 @@ pub fn c09(ix: &Index) -> Vec<Viol> {
             }
         }
     }
+    // (4') the library-side log above starts where the command is handed to the queue layer; the
+    // model knows which calls must hand one over: finishing a sampled, recording root issues its
+    // commit, cancel() on it issues its cancel, on the calling thread, whatever its queue's state
+    for s in h.spans.iter() {
+        let Some(cid) = s.cid else { continue };
+        let mut want: Vec<(&'static str, usize, (T, T), &'static str)> = vec![];
+        if let (Some(ft), Some(fvt)) = (s.finish_t, s.finish_vt) {
+            want.push(("commit", fvt, ft, "finishing"));
+        }
+        for (ct, cvt) in s.cancel_t.iter().zip(s.cancel_vt.iter()) {
+            want.push(("drop", *cvt, *ct, "cancel() on"));
+        }
+        for (kind, vt, (t0, t1), what) in want {
+            if !issued.contains_key(&vt) && !h.hooks.iter().any(|e| e.vt == Some(vt)) {
+                continue; // a thread whose calls are not logged (final clean-up)
+            }
+            let seen = h.hooks.iter().any(|e| {
+                e.vt == Some(vt) && e.t >= t0 && e.t <= t1 && matches!(&e.kind, HookKind::Command { kind: k, ids, force: true } if *k == kind && ids.first() == Some(&cid))
+            });
+            if !seen {
+                out.push(v(
+                    "C09",
+                    "signal-not-issued",
+                    format!("vt{}: {} root {:?} (collect id {}) at t=({}, {}) handed no {} signal to the thread's command queue", vt, what, s.name, cid, t0, t1, if kind == "commit" { "finish" } else { "cancel" }),
+                ));
+            }
+        }
+    }
     // ring of every vthread, learned from its own pushes
     let mut ring_of: HashMap<usize, usize> = HashMap::new();
     for e in &h.hooks {
@@ -2097,13 +2167,31 @@ pub fn c09(ix: &Index) -> Vec<Viol> {
             out.push(v(
                 "C09",
                 "signal-reordered",
-                format!("vt{}: finish/cancel signals were issued as {:?} but reached the collector as {:?}", vt, seq, received),
+                {
+                    let d = (0..n).find(|i| received[*i] != seq[*i]).unwrap_or(n);
+                    let lo = d.saturating_sub(2);
+                    format!(
+                        "vt{}: {} finish/cancel signals were issued and {} reached the collector; they differ first at position {}: issued ..{:?}.. but arrived ..{:?}..",
+                        vt,
+                        seq.len(),
+                        received.len(),
+                        d,
+                        &seq[lo..(d + 3).min(seq.len())],
+                        &received[lo..(d + 3).min(received.len())]
+                    )
+                },
             ));
         } else if received.len() < seq.len() && !lost_ok {
             out.push(v(
                 "C09",
                 "signal-lost",
-                format!("vt{}: finish/cancel signals {:?} were issued but only {:?} reached the collector although the thread did not exit with a full queue", vt, seq, received),
+                format!(
+                    "vt{}: {} finish/cancel signals were issued but only the first {} reached the collector (first missing: {:?}) although the thread did not exit with a full queue",
+                    vt,
+                    seq.len(),
+                    received.len(),
+                    seq[received.len()]
+                ),
             ));
         }
     }
